@@ -66,7 +66,7 @@ AddModuleError(m) ==
        THEN "extern-type-without-size-or-align"
   ELSE IF \E i \in DOMAIN m.exts : m.exts[i].size < 0 \/ m.exts[i].align < 0
        THEN "conv-extern"
-  ELSE IF \E i \in DOMAIN m.exts : m.exts[i].align = 0 THEN "extern-align-zero"
+  ELSE IF \E i \in DOMAIN m.exts : ~IsPow2(m.exts[i].align) THEN "extern-align-not-pow2"
   ELSE ""
 
 RECURSIVE PutDefs(_, _, _, _, _)
